@@ -40,6 +40,11 @@ NAMES = ["a", "b", "c", "now"]
 # ------------------------------------------------------------------ program -> source
 
 
+def pv(v: str) -> str:
+    """Argument value: '@name' is a variable reference (evaluated in the scope of the tag, before anything is bound), else a string literal."""
+    return v[1:] if v.startswith("@") else f"'{v}'"
+
+
 def src_of(ops: list, partials: dict[str, str]) -> str:
     out = []
     for op in ops:
@@ -53,7 +58,7 @@ def src_of(ops: list, partials: dict[str, str]) -> str:
         elif k in ("for", "tablerow"):
             out.append(f"{{% {k} {op[1]} in {op[2]} %}}" + src_of(op[3], partials) + f"{{% end{k} %}}")
         elif k == "with":
-            args = ", ".join(f"{n}: '{v}'" for n, v in op[1].items())
+            args = ", ".join(f"{n}: {pv(v)}" for n, v in op[1].items())
             out.append(f"{{% with {args} %}}" + src_of(op[2], partials) + "{% endwith %}")
         elif k == "include":
             name = op[1]
@@ -62,7 +67,7 @@ def src_of(ops: list, partials: dict[str, str]) -> str:
             if op[2] is not None:
                 e += f" with {op[2][0]}" + (f" as {op[2][1]}" if op[2][1] else "")
             if op[3]:
-                e += ", " + ", ".join(f"{n}: '{v}'" for n, v in op[3].items())
+                e += ", " + ", ".join(f"{n}: {pv(v)}" for n, v in op[3].items())
             out.append("{% include " + e + " %}")
         elif k in ("increment", "decrement"):
             out.append(f"{{% {k} {op[1]} %}}")
@@ -126,11 +131,12 @@ class RScope:
                     self.stack.pop()
                 out.append("</tr>\n")
             elif k == "with":
-                self.stack.append(dict(op[1]))
+                # every argument is evaluated in the enclosing scope; none of them sees a name bound by the same tag
+                self.stack.append({n: (self.lookup(v[1:]) if v.startswith("@") else v) for n, v in op[1].items()})
                 out.append(self.run(op[2]))
                 self.stack.pop()
             elif k == "include":
-                ns: dict[str, Any] = dict(op[3] or {})
+                ns: dict[str, Any] = {n: (self.lookup(v[1:]) if v.startswith("@") else v) for n, v in (op[3] or {}).items()}
                 # keyword arguments are evaluated before the bound variable is looked up; both live in one pushed namespace
                 self.stack.append(ns)
                 if op[2] is not None:
@@ -369,7 +375,7 @@ def gen_ops(rng, depth: int, pid: list[int]) -> list:
             if r2 < 0.3:
                 ops.append([rng.choice(["for", "for", "tablerow"]), name if name != "now" else "a", rng.choice(list(ITERS)), gen_ops(rng, depth + 1, pid)])
             elif r2 < 0.55:
-                bound = {n: f"W{rng.randint(1, 9)}" for n in rng.sample(NAMES[:3], rng.randint(1, 2))}
+                bound = {n: (f"W{rng.randint(1, 9)}" if rng.random() < 0.6 else "@" + rng.choice(NAMES[:3])) for n in rng.sample(NAMES[:3], rng.randint(1, 3))}
                 ops.append(["with", bound, gen_ops(rng, depth + 1, pid)])
             elif r2 < 0.9:
                 pid[0] += 1
@@ -377,7 +383,7 @@ def gen_ops(rng, depth: int, pid: list[int]) -> list:
                 bind = None
                 if rng.random() < 0.5:
                     bind = [rng.choice(NAMES[:3]), rng.choice([None, "a", "b", "c"])]
-                kw = {n: f"K{rng.randint(1, 9)}" for n in rng.sample(NAMES[:3], rng.randint(0, 2))}
+                kw = {n: (f"K{rng.randint(1, 9)}" if rng.random() < 0.6 else "@" + rng.choice(NAMES[:3])) for n in rng.sample(NAMES[:3], rng.randint(0, 3))}
                 ops.append(["include", pname, bind, kw, gen_ops(rng, depth + 1, pid)])
             else:
                 ops.append(["if", gen_ops(rng, depth + 1, pid)])
